@@ -59,6 +59,13 @@ def model_check_cache(ctx: Ctx) -> None:
     d = tlc.model_check('MC_CacheImpl', 'MC_CacheImpl_defect', timeout=600)
     if d.get('violated') != 'Refines':
         raise Machinery('control run: the unrepaired _async_add model no longer violates Refines')
+    # the browser on top of the cache: two pointers of one type; a purge that does not tell the listeners must break LiveMatches
+    b = tlc.model_check('MC_CacheImpl', 'MC_CacheImpl_browser', timeout=1500, coverage=False)
+    if not b['ok']:
+        raise Machinery('CacheImpl with browser violates %s' % b.get('violated'))
+    pd = tlc.model_check('MC_CacheImpl', 'MC_CacheImpl_purge_defect', timeout=600, coverage=False)
+    if pd.get('violated') != 'LiveMatches':
+        raise Machinery('control run: a purge that does not notify no longer violates LiveMatches')
     ctx.coverage['states'] = r['distinct']
     ctx.coverage['transitions'] = r['states']
     ctx.coverage['mc'] = {'model': 'CacheImpl refines Cache', 'config': cfg, 'distinct_states': r['distinct'],
@@ -68,7 +75,7 @@ def model_check_cache(ctx: Ctx) -> None:
         cfg, r['distinct'], r['depth'], r['wall_s'], d.get('violated')))
 
 
-def run_family(ctx: Ctx, own: str, scenarios: List[dict], extra_cov: Dict[str, Any]) -> None:
+def run_family(ctx: Ctx, own: str, scenarios: List[dict], extra_cov: Dict[str, Any]) -> List[dict]:
     procs = 16 if ctx.thorough else 8
     traces = record_all(scenarios, procs)
     by_id = {t['id']: t for t in traces}
@@ -134,3 +141,4 @@ def run_family(ctx: Ctx, own: str, scenarios: List[dict], extra_cov: Dict[str, A
         'projection of library records to vocabulary identities by props/cachefam.py:record_id',
         'a sentinel listener makes every non-empty purge observable; empty purges are stuttering steps',
     ]
+    return traces
